@@ -443,28 +443,28 @@ class C15(OptEngineBase):
                     return attr(other)
                 return attr()
 
-            def partner(p):
-                t = graphs.type_name(p)
+            def partner(ploc):
+                # chosen by position in the pool, never by object identity (identity changes when a numerical
+                # Jacobian re-binds a pose, which would make the question itself depend on the history)
+                t = graphs.type_name(locate(g, ploc))
                 want = graphs.POINT_OF[t] if m in JAC_POINT else t
                 for loc in pose_pool(g):
-                    cand = locate(g, loc)
-                    if graphs.type_name(cand) == want and cand is not p:
-                        return cand
+                    if loc != ploc and graphs.type_name(locate(g, loc)) == want:
+                        return locate(g, loc)
                 return None
 
-            oa = partner(a)
+            oa = partner(op["a"])
             if oa is None and (m in JAC_BINARY or m in JAC_POINT):
                 return "incompatible"
             first = call(a, oa)
             keep = canon_value(first)
-            others = [locate(g, loc) for loc in pose_pool(g)]
-            for p2 in others:
-                if p2 is a or graphs.type_name(p2) != ta:
+            for loc in pose_pool(g):
+                if loc == op["a"] or graphs.type_name(locate(g, loc)) != ta:
                     continue
-                o2 = partner(p2)
+                o2 = partner(loc)
                 if o2 is None and (m in JAC_BINARY or m in JAC_POINT):
                     continue
-                call(p2, o2)
+                call(locate(g, loc), o2)
                 break
             res.probe("held_result_test")
             return [keep, canon_value(first)]
